@@ -29,3 +29,6 @@ import Gleece.Properties.C10Complete
 #print axioms Gleece.Validate.wellLinked_accepted
 #print axioms Gleece.Validate.wellLinkedB_sound
 #print axioms Gleece.Validate.wellLinkedB_accepted
+#print axioms Gleece.Validate.validateParams_complete
+#print axioms Gleece.Validate.validateReturns_complete
+#print axioms Gleece.Validate.receiver_accepts
